@@ -12,7 +12,7 @@ import (
 // C04 — a utility ranking is exactly the order of the utilities (DESIGN.md 6.C04, A.1).
 
 // -1 and 0 are in the grid on purpose: a utility of exactly 0 (and tiers below it) is ordinary with cost criteria
-var c04Levels = []float64{0, 1, 0.7 + 1.4, 1 + 4e-9, 1 + 6e-9, -1, 2.1} // 0.7+1.4 = 2.0999999999999996 rounds to 2.1
+var c04Levels = []float64{0, 1, 0.7 + 1.4, 1 + 4e-9, 1 + 6e-9, -1, 2.1, 1e11} // 0.7+1.4 = 2.0999999999999996 rounds to 2.1
 
 func c04LevelsFor(n int, thorough bool) []float64 {
 	switch {
@@ -37,7 +37,7 @@ func init() {
 		Rule: "E1 full product: every value function n alternatives -> {-1,0,1,1+4e-9,1+6e-9,0.7+1.4 (=2.0999999999999996),2.1} for n<=3, without 2.1 for n=4 (n=5: {-1,0,1,1+6e-9}; thorough n=5 full, n=6 {-1,0,1}) x " +
 			"every permutation of knownAlternatives x every permutation of choseToMake (independently for n<=3; n=4: all 24 of each combined with identity/same/last of the other, thorough all 576; rotations+reversal above; " +
 			"thorough all n! for n<=5) x {weightedSum,owa,choquetIntegral} x {all considered, one extra known alternative not considered}; " +
-			"plus the exported Ranking() on every weak order of 7 (thorough) / 6 (quick) alternatives. " +
+			"plus every two-level assignment of 13 alternatives (beyond the 12-element threshold of the library sort), plus the exported Ranking() on every weak order of 7 (thorough) / 6 (quick) alternatives. " +
 			"distinct_nontrivial = distinct (method, response) pairs whose ranking has >=2 value classes.",
 		Assume: []string{"values are taken from a 5-level grid containing two levels that coincide with / differ from 1 only after the 1e-8 rounding",
 			"single-criterion requests with weight/capacity 1 are used so that utility == criterion value for all three methods"},
@@ -274,6 +274,39 @@ func c04Run(s *Shard) {
 			}
 		})
 	}
+	// more than 12 alternatives (sort implementations change strategy there): every two-level assignment of 13
+	// alternatives (thorough: also 14 with three levels sampled by structure) through one utility method each
+	big := 13
+	dimsB := make([]int, big)
+	for i := range dimsB {
+		dimsB[i] = 2
+	}
+	idsB := make([]string, big)
+	for i := range idsB {
+		idsB[i] = fmt.Sprintf("n%02d", i)
+	}
+	Product(dimsB, func(idx []int) {
+		if !s.Take() {
+			return
+		}
+		vals := make([]float64, big)
+		sum := 0
+		for i, k := range idx {
+			vals[i] = float64(k)
+			sum += k
+		}
+		method := utilMethods[sum%3]
+		// listing order: a fixed non-sorted interleaving
+		listing := make([]string, big)
+		for i := range listing {
+			listing[i] = idsB[(i*5)%big]
+		}
+		c := &Case{Prop: "C04", Kind: "request", Req: c04Request(method, idsB, vals, listing, listing, false), Params: M{"ids": idsB, "vals": vals}}
+		s.Evals++
+		s.Begin(c)
+		s.Report(c04Check(c))
+		s.Outcome(sum > 0 && sum < big, method, "13", fmt.Sprint(idx))
+	})
 	// direct driver: exported AlternativeResults.Ranking() over every weak order
 	nw := 6
 	if !quick(s) {
